@@ -4,6 +4,9 @@ import json, os
 HERE = os.path.dirname(os.path.dirname(os.path.abspath(__file__)))
 
 CHECKS = {
+ "C01": ("other", "intra-procedural interval analysis (UB1: branch refinement, threshold widening) over clang's CFG + whole-program value-origin analysis + constructor/field-initialisation analysis",
+         "Decides four structural clauses of memory safety: R-ARRAY (every index into / copy into a fixed-size array is bounded on all paths), R-TYPEWRITE (every value reaching token.type is a known constant < kMaxTokenTypes), R-LOOKBEHIND (every x-k string index is guarded by x>=k), R-INIT (no read of a never-initialised malloc'ed field). Does not decide scanner termination, span arithmetic, ownership across containers.",
+         "§3 C01"),
  "C02": ("other", "LALR table exploration (exhaustive) + enum-dispatch partial evaluation + call-graph reachability over clang-resolved callees",
          "Decides three structural clauses: R-LALR (exhaustive exploration of the LALR block parser's configuration space: every sequence of real line kinds is accepted, no error action, stack bounded), R-DISPATCH (every producible token type has a non-escape branch in all 7 writers, by EDPE), R-NOEXIT (no exit/abort reachable from the API). Does not decide that the rendering contains all text.",
          "§3 C02"),
@@ -14,7 +17,7 @@ CHECKS = {
          "Decides that every string/DString variant is a thin wrapper (delegates on all paths, sets language, forwards arguments, frees with the right ownership flag), that convert_to_data and convert_to_file build the same package per format, and the CLI's -t table. Byte equality follows because the engine function is shared; it is not itself checked.",
          "§3 C06"),
  "C05": ("other", "whole-program inventory of global-storage objects and stateful libc calls + call-graph reachability",
-         "Decides the 'no hidden history in process globals / libc state' clause: every mutable global and every stateful libc call reachable from a conversion entry point is enumerated and must be allowed by the property's own terms.",
+         "Decides: R-GLOBAL (every mutable global and stateful libc call reachable from a conversion is enumerated and must be allowed by the property's own terms), R-RESET (every container of the engine is cleared before a re-parse), R-INIT (no indeterminate heap value is read), R-SRCCONST (the conversion cone never writes the caller's source). Does not decide byte equality of outputs as such.",
          "§3 C05"),
  "C17": ("other", "same inventory on the -DDISABLE_OBJECT_POOL configuration with an empty allow list",
          "Decides the 'no shared mutable state' clause for the pool-disabled build; does not decide byte equality across threads.",
